@@ -8,6 +8,7 @@
 from __future__ import annotations
 
 import collections
+import re
 import time
 
 from .. import core, gapspace as g, obs
@@ -48,7 +49,12 @@ def install_counter():
         setattr(cls, "rebuild", make(f))
 
 
-INNERMOST = {"x": g.X, "mlset": g.P("set1", (g.X,), ((0, "\n"),)), "x-nl": g.X}  # "x-nl": nested program on the next line at every level
+INNERMOST = {"x": g.X, "mlset": g.P("set1", (g.X,), ((0, "\n"),)), "x-nl": g.X, "x-wide": g.X}
+# "x-nl": nested program on the next line at every level
+# "x-wide": every `x` is a 120-character identifier, so each level is wider than the renderer's only
+#           width threshold (list.py MAX_INLINE_LIST_WIDTH = 100) from the first level on
+WIDE = "w" * 120
+_X_RE = re.compile(r"(?<![\w./\"'-])x(?![\w./\"'-])")
 PERIOD2 = ["set1", "list1", "let", "lam", "lamf1", "call", "with", "assert", "if", "paren", "inheritfrom", "concat", "select"]
 
 
@@ -80,6 +86,13 @@ def nest(chain, depth, inner, newline=False):
     return p
 
 
+def family_text(chain, iname, depth):
+    text = g.render(nest(chain, depth, INNERMOST[iname], newline=iname.endswith("-nl")))
+    if iname.endswith("-wide"):
+        text = _X_RE.sub(WIDE, text)
+    return text
+
+
 def families():
     out = []
     for c in g.COMPOSITE_CONSTRUCTS:
@@ -94,6 +107,7 @@ def families():
                 hd = g.n_holes(d) - 1
                 out.append((f"{c}[{hc}]/{d}[{hd}]<x>", [(c, hc), (d, hd)], "x"))
                 out.append((f"{c}[{hc}]/{d}[{hd}]<x-nl>", [(c, hc), (d, hd)], "x-nl"))
+                out.append((f"{c}[{hc}]/{d}[{hd}]<x-wide>", [(c, hc), (d, hd)], "x-wide"))
     return out
 
 
@@ -101,8 +115,7 @@ def measure(chain, iname, depth):
     """-> (calls | 'CAP' | 'INVALID' | exception name, seconds)"""
     from nix_manipulator import parse
 
-    prog = nest(chain, depth, INNERMOST[iname], newline=iname.endswith("-nl"))
-    text = g.render(prog)
+    text = family_text(chain, iname, depth)
     if obs.has_error(text):
         return "INVALID", 0.0, len(text)
     _count[0] = 0
@@ -178,16 +191,16 @@ def run(prop: str, tier: str) -> core.Report:
         shape = "invalid" if all(v == "INVALID" for v in vals.values()) else ("exponential" if cls == "exponential" else "polynomial")
         classes[shape] += 1
         if cls:
-            fl.append(core.Failure(prop="C20", sig=f"{cls}|{name}", cls=cls, case={"kind": "c20-growth", "chain": [list(x) for x in chain], "inner": iname, "depths": depths}, detail=f"family {name} ({g.render(nest(chain, 3, INNERMOST[iname], newline=iname.endswith('-nl')))!r} ...): {detail}", group=cls))
+            fl.append(core.Failure(prop="C20", sig=f"{cls}|{name}", cls=cls, case={"kind": "c20-growth", "chain": [list(x) for x in chain], "inner": iname, "depths": depths}, detail=f"family {name} ({family_text(chain, iname, 3).replace(WIDE, 'w' * 6 + '...(120)')!r} ...): {detail}", group=cls))
     n_meas = sum(len(v) for v in table.values())
     cov = dict(a.coverage)
     cov["evaluations"] = a.coverage["evaluations"] + n_meas
     cov["distinct_nontrivial"] = a.coverage["distinct_nontrivial"] + n_meas
-    cov["rule"] = a.coverage["rule"] + f" || growth: {len(fams)} nesting families (every composite construct nested in each of its own holes around 2 innermost programs, plus the same with the nested program on the next line at every level; period-2 families over {len(PERIOD2)} constructs) x depths {depths}; measure = number of rebuild() invocations (deterministic), cap {CAP}"
+    cov["rule"] = a.coverage["rule"] + f" || growth: {len(fams)} nesting families (every composite construct nested in each of its own holes around 2 innermost programs, plus the same with the nested program on the next line at every level and with every leaf a 120-character identifier (past the renderer's width threshold); period-2 families over {len(PERIOD2)} constructs) x depths {depths}; measure = number of rebuild() invocations (deterministic), cap {CAP}"
     cov["growth_families"] = len(fams)
     cov["growth_shapes"] = dict(classes)
     cov["growth_samples"] = {k: table[k] for k in list(sorted(table))[:: max(1, len(table) // 8)]}
-    cov["samples"] = list(a.coverage["samples"])[:4] + [g.render(nest(c, 4, INNERMOST[i], newline=i.endswith("-nl"))) for n, c, i in core.pick_samples(fams, 3)]
+    cov["samples"] = list(a.coverage["samples"])[:4] + [family_text(c, i, 4).replace(WIDE, "w" * 6 + "...(120)") for n, c, i in core.pick_samples(fams, 3)]
     return core.Report(prop="C20", level="exploration", coverage=cov, failures=fl, assumptions=a.assumptions + ["growth is judged on the count of rebuild() invocations obtained by wrapping every rebuild method from the harness (wall time is reported, not judged)", "polynomial = calls(2d) <= 16 * calls(d) for the two largest measured pairs, the last two step-2 ratios not both >= 1.9, and no case above the cap"])
 
 
